@@ -57,7 +57,7 @@ def post_of(world):
       oper=[[scope_seq(sc), sel.split('.'), param, __import__('json').loads(v)] for sc, sel, param, v in sorted(p['oper'])],
       stack=p['stack'], locked=p['locked'], interactive=p['interactive'],
       consts=[[n.split('.'), __import__('json').loads(v)] for n, v in sorted(p['consts'])],
-      singles=[scope_seq(s) for s in sorted(p['singles'])])
+      singles=[scope_seq(s) for s in sorted(p['singles'])], imports=sorted(p['imports']))
 
 
 def random_value(rng, producers, depth=0, with_refs=True):
@@ -138,8 +138,11 @@ def drive(rng, length=14):
         o = dict(op='UnlockExit', byException=rng.random() < 0.4)
       elif r < 0.98:
         o = dict(op='DefineConstant', name=rng.choice(CONST_NAMES), val=['nonlit', rng.choice(['o1', 'o2'])], valid=rng.random() < 0.9)
-      elif r < 0.99:
+      elif r < 0.985:
         o = dict(op='SetInteractive', on=rng.random() < 0.5)
+      elif r < 0.99:
+        o = rng.choice([dict(op='ParseImport', module=rng.choice(['colorsys', 'string', 'os.path'])),
+                        dict(op='SingletonDirect', key=[rng.choice(['d1', 's1'])])])
       else:
         o = dict(op='Clear', clearConstants=rng.random() < 0.3)
       got = world.apply(o)
@@ -153,6 +156,8 @@ def drive(rng, length=14):
         unlocks -= 1
       ev = dict(o)
       ev['status'] = got['status']
+      if o['op'] == 'SingletonDirect':
+        ev['fresh'] = got.get('fresh')
       if o['op'] == 'Call':
         for k in ('delivered', 'kw', 'va', 'missing', 'ran', 'evals'):
           ev[k] = got.get(k, [])
